@@ -33,7 +33,15 @@ def run_static(prop, seed, tier, replay):
             samples.append({"input": c["code"][:400], "config": c["config"], "verdict": v, "detail": d[:200],
                             "output_head": (c.get("content") or "")[-600:-200]})
     st = res["stats"]
+    l1 = res["verdicts"].get("L1", [])
+    drift = [(rid, d) for rid, v, d in l1 if v == "drift"]
     cov = {
+        "design_model_conformance": {
+            "model": "spec/Rewriter.tla predicts output tree (incl. temporary numbering), status, count, debug breakdown, refusals",
+            "observations_predicted_exactly": sum(1 for _, v, _ in l1 if v == "ok"),
+            "trivially_agreeing": sum(1 for _, v, _ in l1 if v == "ok0"),
+            "model_drift": len(drift),
+            "drift_examples": [{"input": res["cases"][rid]["code"][:200], "why": d[:200]} for rid, d in drift[:3]]},
         "states": st["tlc_distinct"], "transitions": st["tlc_states"],
         "traces_validated_against_impl": st["records"],
         "evaluations": st["cases"], "samples": samples,
